@@ -9,6 +9,7 @@ import (
 	"fmt"
 	"math/rand"
 	"sort"
+	"strings"
 
 	"github.com/hashicorp/hcl-lang/decoder"
 	"github.com/hashicorp/hcl-lang/lang"
@@ -29,7 +30,9 @@ var refTypePool = []cty.Type{
 
 const lineW = 41
 
-func mkPos(line, col int) hcl.Pos { return hcl.Pos{Line: line, Column: col, Byte: (line-1)*lineW + col - 1} }
+func mkPos(line, col int) hcl.Pos {
+	return hcl.Pos{Line: line, Column: col, Byte: (line-1)*lineW + col - 1}
+}
 func mkRange(file string, l1, c1, l2, c2 int) hcl.Range {
 	return hcl.Range{Filename: file, Start: mkPos(l1, c1), End: mkPos(l2, c2)}
 }
@@ -492,7 +495,7 @@ func runC11(run *Run, replay string) {
 							}
 							if !shared {
 								run.Violate(Violation{Key: "C11/path-origin-resolved-in-wrong-path", Rule: "origins that point into another path resolve against that path's declarations",
-									Func: "Decoder.ReferenceTargetsForOriginAtPos",
+									Func:   "Decoder.ReferenceTargetsForOriginAtPos",
 									Detail: fmt.Sprintf("path origin %s of path %s (target path %s) resolved to a declaration of path %s", Show(originS(o)), x.pd.Path.Path, po.TargetPath.Path, rt.Path.Path),
 									Replay: map[string]interface{}{"kind": "world", "seed": run.Res.Seed, "world": wi, "origin": Show(originS(o))}})
 							}
@@ -516,7 +519,7 @@ func runC11(run *Run, replay string) {
 					run.Count("definitions_checked")
 					if !found {
 						run.Violate(Violation{Key: "C11/find-references-misses-origin", Rule: "whenever go-to-definition from an origin reports a declaration, find-references at that declaration's definition reports that origin",
-							Func: "Decoder.ReferenceOriginsTargetingPos",
+							Func:   "Decoder.ReferenceOriginsTargetingPos",
 							Detail: fmt.Sprintf("origin %s in path %s resolves to %s:%v (def %v) but find-references there returns %d origins without it", Show(originS(o)), x.pd.Path.Path, rt.Path.Path, rt.Range, *rt.DefRangePtr, len(back)),
 							Replay: map[string]interface{}{"kind": "world", "seed": run.Res.Seed, "world": wi, "origin": Show(originS(o)), "origin_path": x.pd.Path.Path,
 								"targets_of_target_path": Show(targetsS(targetsOfPath(w, rt.Path))), "definition": fmt.Sprint(*rt.DefRangePtr)}})
@@ -529,6 +532,61 @@ func runC11(run *Run, replay string) {
 		}
 		if wi < 2 {
 			run.Sample(map[string]interface{}{"paths": np, "targets_path0": Show(targetsS(pws[0].ts)), "origins_path0": Show(originsS(pws[0].os))})
+		}
+	}
+	collectedWorldOracle(run, n/2)
+}
+
+// collectedWorldOracle: on collected declarations of the ground-truth language, go-to-definition
+// lands on the declaration the address denotes (the text at the reported range names the last step)
+// and find-references at that definition reports the origin back
+func collectedWorldOracle(run *Run, n int) {
+	for i := 0; i < n; i++ {
+		r := rand.New(rand.NewSource(subSeed(run.Res.Seed, 1111000+i)))
+		sc, _ := tfScenario(r)
+		sc.W.Collect()
+		loc := map[string]interface{}{"seed": run.Res.Seed, "collected_world": i, "src": string(sc.Src)}
+		for _, o := range sc.Main.Ctx.ReferenceOrigins {
+			lo, ok := o.(reference.LocalOrigin)
+			if !ok || len(lo.Addr) == 0 {
+				continue
+			}
+			last, isAttr := lo.Addr[len(lo.Addr)-1].(lang.AttrStep)
+			res := safeCall("ReferenceTargetsForOriginAtPos", func() (interface{}, error) {
+				return sc.W.Dec.ReferenceTargetsForOriginAtPos(sc.Main.Path, lo.Range.Filename, lo.Range.Start)
+			})
+			run.Res.Evaluations++
+			if res.Panic != "" || res.Err != nil {
+				continue
+			}
+			for _, rt := range res.Val.(decoder.ReferenceTargets) {
+				if rt.OriginRange != lo.Range || rt.Range.Filename != sc.File || rt.Range.Start.Byte >= rt.Range.End.Byte || rt.Range.End.Byte > len(sc.Src) {
+					continue
+				}
+				run.Count("collected_definitions_checked")
+				if isAttr && len(lo.Addr) >= 3 {
+					text := string(sc.Src[rt.Range.Start.Byte:rt.Range.End.Byte])
+					firstLine := strings.SplitN(text, "\n", 2)[0]
+					if !strings.Contains(firstLine, last.Name) {
+						run.Violate(Violation{Key: "C11/definition-is-not-what-the-address-denotes", Rule: "a reference resolves to exactly the declarations its address denotes",
+							Func: "Decoder.ReferenceTargetsForOriginAtPos", Detail: fmt.Sprintf("%s resolves to %v, which begins %q", lo.Addr.String(), rt.Range, firstLine),
+							Replay: map[string]interface{}{"kind": "collected", "seed": run.Res.Seed, "collected_world": i, "src": string(sc.Src), "origin": lo.Addr.String()}})
+					}
+				}
+				if rt.DefRangePtr != nil {
+					back := sc.W.Dec.ReferenceOriginsTargetingPos(rt.Path, rt.DefRangePtr.Filename, rt.DefRangePtr.Start)
+					found := false
+					for _, b := range back {
+						if b.Range == lo.Range {
+							found = true
+						}
+					}
+					if !found {
+						run.Violate(Violation{Key: "C11/find-references-misses-origin", Rule: "whenever go-to-definition from an origin reports a declaration, find-references at that declaration's definition reports that origin",
+							Func: "Decoder.ReferenceOriginsTargetingPos", Detail: fmt.Sprintf("%s at %v -> %v", lo.Addr.String(), lo.Range, *rt.DefRangePtr), Replay: loc})
+					}
+				}
+			}
 		}
 	}
 }
